@@ -304,6 +304,33 @@ def _install_guard():
     AxolotlReceivelayer.handleEncMessage = guarded
 
 
+REGIDS = [0x1abcdef, 0x5bcdef01, 0xabc, 0x3ffc, 0x7, 0x12345, 0x7ffffffe, 0x100000, 0x10, 0xfffffff, 0x2b67]
+_REGID_NEXT = [0]
+
+
+def _install_regids():
+    """the registration id of an account is drawn when its key store is created; the accounts of the simulation get ids of every hex width in
+    turn (1 to 8 digits, odd and even) instead of whatever the generator gives: what is built from the id (retry receipts, key uploads) must
+    work for all of them"""
+    import yowsup.axolotl.store.sqlite.liteidentitykeystore as LI
+    if getattr(LI.KeyHelper, "_verif_regids", False):
+        return
+    real = LI.KeyHelper
+
+    class KH(object):
+        _verif_regids = True
+
+        @staticmethod
+        def generateRegistrationId(*a, **kw):
+            v = REGIDS[_REGID_NEXT[0] % len(REGIDS)]
+            _REGID_NEXT[0] += 1
+            return v
+
+        def __getattr__(self, n):
+            return getattr(real, n)
+    LI.KeyHelper = KH()
+
+
 class Server(object):
     """the common server.  Queues: per connection `inbound` (FIFO); per account `outbound` (FIFO, survives
     connections = offline storage).  `enabled()` lists what the scheduler may do next; `fire(action)` does it."""
@@ -333,6 +360,7 @@ class Server(object):
 
     def install(self):
         _install_guard()
+        _install_regids()
         import yowsup.axolotl.manager as mgr
         import yowsup.layers.network.layer as nl
         nl.AsyncoreConnectionDispatcher = SimDispatcher
